@@ -55,3 +55,7 @@ def run(ctx):
     ctx.assumptions.append("recorded traces (direction code -> spec): sizes 1..50 plus {100,255,256,259,263,264,500,2000}, timeouts {0,2,3,5,9} ms, server answers conforming or one of six deviations at random points, random idle gaps, requests issued from inside the completion callback (refused or accepted: both allowed, an accepted one must then complete like any other)")
     csdo_trace.run(ctx, 1200 if q else 40000)
     csdo_trace.run(ctx, 500 if q else 15000, client=1)
+    # next to every other service and timer of the node (product model CoFull)
+    import full_check
+    full_check.run(ctx, 500 if q else 20000)
+
